@@ -63,6 +63,7 @@ func genC04W(r *hysim.Rand, tier string) *hysim.Script {
 	sc := &hysim.Script{Cfg: map[string]int64{}}
 	sc.Cfg["mode"] = int64(r.Intn(2))
 	sc.Cfg["fastopen"] = int64(r.Intn(2))
+	sc.Cfg["par"] = int64(r.Pick(0, 1))
 	sc.Cfg["net_delay_us"] = int64(r.Pick(200, 1000, 10000))
 	if r.Chance(1, 3) {
 		sc.Cfg["net_jitter_us"] = int64(r.Pick(100, 2000))
@@ -171,97 +172,143 @@ func c04Server(x *hysim.Run, w *wWorld) {
 		x.Inconclusive("raw auth failed")
 		return
 	}
-	for oi, op := range sc.Ops {
-		if x.Violated() {
-			break
-		}
+	// the requests run one after another, or (par) all at once on their own streams: nothing one
+	// request's parser holds may be touched by another's
+	type rec struct {
+		oi      int
+		op      hysim.Op
+		over    int64
+		addr    string
+		payload []byte
+		got     []byte
+		werr    error
+		skipped bool
+	}
+	par := sc.Get("par", 0) == 1
+	recs := make([]*rec, 0, len(sc.Ops))
+	done := make(chan struct{}, len(sc.Ops)+1)
+	one := func(r *rec) {
+		oi, op := r.oi, r.op
 		// what is over the limits is derived from the values (so that minimised scripts stay meaningful)
-		over := int64(0)
 		switch {
 		case op.Arg(1) <= 0:
-			over = 3
+			r.over = 3
 		case op.Arg(1) > c04MaxAddr:
-			over = 1
+			r.over = 1
 		case op.Arg(3) > c04MaxPad || op.Arg(3) < 0:
-			over = 2
+			r.over = 2
 		}
-		alen := int(op.Arg(1))
-		realLen := alen
-		if over == 1 {
+		realLen := int(op.Arg(1))
+		if r.over == 1 {
 			realLen = 30 // declared beyond the limit; only a little is actually sent
 		}
-		if over == 3 {
+		if r.over == 3 {
 			realLen = 0
 		}
 		tag := fmt.Sprintf("c04w-%d.", oi)
-		addr := ""
 		if realLen > 0 {
 			if realLen < len(tag)+6 {
-				addr = c04Fill("", realLen)
+				r.addr = c04Fill("", realLen)
 			} else {
-				addr = c04Fill(tag, realLen-6) + ".sim:1"
+				r.addr = c04Fill(tag, realLen-6) + ".sim:1"
 			}
 		}
-		pad := int(op.Arg(3))
-		realPad := pad
+		realPad := int(op.Arg(3))
 		if op.Arg(3) > c04MaxPad || op.Arg(3) < 0 {
 			realPad = 10
 		}
 		var fr []byte
 		fr = c04Varint(fr, protocol.FrameTypeTCPRequest, int(op.Arg(0)))
 		fr = c04Varint(fr, uint64(max(op.Arg(1), 0)), int(op.Arg(2)))
-		fr = append(fr, addr...)
+		fr = append(fr, r.addr...)
 		fr = c04Varint(fr, uint64(max(op.Arg(3), 0)), int(op.Arg(4)))
 		fr = append(fr, bytes.Repeat([]byte{'P'}, realPad)...)
-		payload := []byte(c04Fill(fmt.Sprintf("PAYLOAD-%d:", oi), int(min(max(op.Arg(6), 0), 100000))))
-		fr = append(fr, payload...)
-		nOut := len(w.outCalls)
+		r.payload = []byte(c04Fill(fmt.Sprintf("PAYLOAD-%d:", oi), int(min(max(op.Arg(6), 0), 100000))))
+		fr = append(fr, r.payload...)
 		str, err := rc.qc.OpenStream()
 		if err != nil {
 			x.Probe("raw-openstream-failed")
-			continue
+			r.skipped = true
+			return
 		}
-		x.Ev("o%d request: type width %d, addr len %d (width %d, sent %d), padding %d (width %d, sent %d), payload %d, over=%d", oi, op.Arg(0), op.Arg(1), op.Arg(2), len(addr), op.Arg(3), op.Arg(4), realPad, len(payload), over)
-		werr := c04WriteChunked(str, fr, uint64(op.Arg(5)))
+		x.Ev("o%d request: type width %d, addr len %d (width %d, sent %d), padding %d (width %d, sent %d), payload %d, over=%d", oi, op.Arg(0), op.Arg(1), op.Arg(2), len(r.addr), op.Arg(3), op.Arg(4), realPad, len(r.payload), r.over)
+		r.werr = c04WriteChunked(str, fr, uint64(op.Arg(5)))
 		// (the write side stays open until the echo is back: the relay ends as soon as either
 		// direction does)
-		wantTail := append([]byte("TARGET:"+addr+"\n"), payload...)
-		var got []byte
+		wantTail := append([]byte("TARGET:"+r.addr+"\n"), r.payload...)
 		_ = str.SetReadDeadline(time.Now().Add(3 * time.Second))
 		rb := make([]byte, 4096)
-		for len(got) < 1<<20 {
+		for len(r.got) < 1<<20 {
 			n, rerr := str.Read(rb)
-			got = append(got, rb[:n]...)
-			if rerr != nil || (over == 0 && bytes.HasSuffix(got, wantTail)) {
+			r.got = append(r.got, rb[:n]...)
+			if rerr != nil || (r.over == 0 && bytes.HasSuffix(r.got, wantTail)) {
 				break
 			}
 		}
 		_ = str.Close()
 		str.CancelRead(0)
-		synctest.Wait()
-		var dialled []string
-		for _, oc := range w.outCalls[nOut:] {
-			if oc.kind == "tcp" {
-				dialled = append(dialled, oc.addr)
+	}
+	for oi, op := range sc.Ops {
+		r := &rec{oi: oi, op: op}
+		recs = append(recs, r)
+		if par {
+			hysim.Go("harness:c04-request", func() {
+				one(r)
+				done <- struct{}{}
+			})
+			if op.Arg(5)%3 == 0 {
+				time.Sleep(time.Duration(op.Arg(5)%7) * time.Millisecond)
+			}
+		} else {
+			one(r)
+		}
+	}
+	if par {
+		for range recs {
+			<-done
+		}
+		if len(recs) > 1 {
+			x.Probe("requests-in-parallel")
+		}
+	}
+	synctest.Wait()
+	expected := map[string]int{}
+	for _, r := range recs {
+		if !r.skipped && r.over == 0 && r.werr == nil {
+			expected[r.addr]++
+		}
+	}
+	actual := map[string]int{}
+	for _, oc := range w.outCalls {
+		if oc.kind == "tcp" {
+			actual[oc.addr]++
+			if expected[oc.addr] == 0 && !x.Violated() {
+				x.Violate("request-not-read-back", "the server dialled %q (%d bytes), which no accepted request named", oc.addr[:min(len(oc.addr), 60)], len(oc.addr))
 			}
 		}
-		if over != 0 {
-			if len(dialled) > 0 {
-				x.Violate("over-limit-frame-accepted", "o%d: a request declaring address length %d / padding length %d (limits %d / %d) made the server dial %q", oi, op.Arg(1), op.Arg(3), c04MaxAddr, c04MaxPad, dialled[0][:min(len(dialled[0]), 60)])
-			}
-			x.Probe("over-limit-request-refused")
+	}
+	for _, r := range recs {
+		if x.Violated() {
+			break
+		}
+		if r.skipped {
 			continue
 		}
-		if werr != nil {
+		oi, op, addr, payload, got := r.oi, r.op, r.addr, r.payload, r.got
+		if r.over != 0 {
+			x.Probe("over-limit-request-refused") // (a dial for it would have been flagged above: its address is named by no accepted request)
+			continue
+		}
+		if r.werr != nil {
 			x.Probe("raw-stream-write-failed")
 			continue
 		}
-		if len(dialled) != 1 || dialled[0] != addr {
-			d := "<none>"
-			if len(dialled) > 0 {
-				d = fmt.Sprintf("%q (%d bytes)", dialled[0][:min(len(dialled[0]), 60)], len(dialled[0]))
-			}
-			x.Violate("request-not-read-back", "o%d: request for a %d-byte address %q... (frame type in %d bytes, address length in %d bytes, padding %d in %d bytes) made the server dial %s", oi, len(addr), addr[:min(len(addr), 30)], len(c04Varint(nil, protocol.FrameTypeTCPRequest, int(op.Arg(0)))), len(c04Varint(nil, uint64(op.Arg(1)), int(op.Arg(2)))), pad, len(c04Varint(nil, uint64(op.Arg(3)), int(op.Arg(4)))), d)
+		if actual[addr] != expected[addr] {
+			x.Violate("request-not-read-back", "o%d: request for a %d-byte address %q... (frame type in %d bytes, address length in %d bytes, padding %d in %d bytes): the server dialled that address %d times, %d requests named it", oi, len(addr), addr[:min(len(addr), 30)], len(c04Varint(nil, protocol.FrameTypeTCPRequest, int(op.Arg(0)))), len(c04Varint(nil, uint64(op.Arg(1)), int(op.Arg(2)))), op.Arg(3), len(c04Varint(nil, uint64(op.Arg(3)), int(op.Arg(4)))), actual[addr], expected[addr])
+			continue
+		}
+		if expected[addr] != 1 {
+			x.Probe("same-address-twice-not-judged-further")
 			continue
 		}
 		// the target saw exactly the payload, from its first byte
@@ -272,11 +319,11 @@ func c04Server(x *hysim.Run, w *wWorld) {
 			}
 		}
 		if tg == nil || !bytes.Equal(tg.recv, payload) {
-			var r []byte
+			var rr []byte
 			if tg != nil {
-				r = tg.recv
+				rr = tg.recv
 			}
-			x.Violate("payload-swallowed-or-altered", "o%d: %d payload bytes followed the request frame, the target received %d: %q (want %q)", oi, len(payload), len(r), r[:min(len(r), 40)], payload[:min(len(payload), 40)])
+			x.Violate("payload-swallowed-or-altered", "o%d: %d payload bytes followed the request frame, the target received %d: %q (want %q)", oi, len(payload), len(rr), rr[:min(len(rr), 40)], payload[:min(len(payload), 40)])
 			continue
 		}
 		// and the answer is a well-formed OK response followed by the target's bytes
